@@ -40,6 +40,8 @@ pub enum Sch {
     Gen(Schedule),
     /// enumerate every placement of <= k forced switches (bounded-exhaustive)
     Exhaustive(u8),
+    /// real OS threads, unscheduled: `reps` fresh managers, every thread runs its program `loops` times
+    Free { reps: u16, loops: u16 },
 }
 
 #[derive(Clone, Debug, Serialize, Deserialize)]
@@ -57,6 +59,67 @@ pub enum HOp {
 pub enum Case {
     Sched { level: u8, via_tm: bool, threads: Vec<Vec<Op>>, schedule: Sch },
     Hist { ops: Vec<HOp>, allow_drop_mgr: bool },
+    /// sequential LazyFreeList history (`threshold` 0 = default constructor)
+    Lazy { threshold: usize, ops: Vec<LOp> },
+}
+
+#[derive(Clone, Copy, Debug, Serialize, Deserialize)]
+pub enum LOp {
+    Push(u64),
+    /// n items of the same age
+    PushRun(u64, u8),
+    /// process_safe_items(min_version)
+    Process(u64),
+}
+
+/// Model: the queue is FIFO; a call frees a prefix of it, only items with age < min_version,
+/// at most `bulk_threshold` of them, reports exactly the number of callbacks, and never
+/// duplicates or loses an item.
+fn run_lazy(ctx: &mut Ctx, threshold: usize, ops: &[LOp]) {
+    let mut list = if threshold == 0 { LazyFreeList::new() } else { LazyFreeList::with_bulk_threshold(threshold) };
+    let mut model: std::collections::VecDeque<(u64, u32)> = Default::default();
+    let mut next_id = 0u32;
+    let mut unordered = false;
+    let mut longest = 0usize;
+    for op in ops {
+        match *op {
+            LOp::Push(a) | LOp::PushRun(a, _) => {
+                let n = if let LOp::PushRun(_, n) = *op { n as usize } else { 1 };
+                for _ in 0..n {
+                    if model.back().map(|b| b.0 > a).unwrap_or(false) {
+                        unordered = true;
+                    }
+                    list.push(LazyFreeItem::new(a, next_id, 8));
+                    model.push_back((a, next_id));
+                    next_id += 1;
+                }
+                longest = longest.max(model.len());
+            }
+            LOp::Process(mv) => {
+                let mut freed: Vec<(u64, u32)> = vec![];
+                let Some(n) = ctx.no_panic("process_safe_items", || list.process_safe_items(mv, |it| freed.push((it.age, it.memory_offset)))) else { return };
+                ctx.eq("process_safe_items", "returned_count", &n, &freed.len());
+                if let Some(bad) = freed.iter().find(|f| f.0 >= mv) {
+                    ctx.fail("reclaim", "mismatch", "item_freed_while_visible", format!("item retired at version {} handed to the free callback with min_version {mv} (queue of {} items, {})", bad.0, model.len(), if unordered { "ages not monotone" } else { "ages monotone" }));
+                }
+                let prefix: Vec<(u64, u32)> = model.iter().take(freed.len()).copied().collect();
+                if !ctx.eq("process_safe_items", "frees_queue_prefix", &freed, &prefix) {
+                    return;
+                }
+                for _ in 0..freed.len() {
+                    model.pop_front();
+                }
+            }
+        }
+        ctx.eq("len", "", &list.len(), &model.len());
+    }
+    if unordered && longest >= 32 {
+        ctx.nontrivial();
+        ctx.label("lazy_queue>=32_and_unordered");
+    } else if longest >= 2 {
+        ctx.nontrivial();
+    }
+    ctx.label(format!("lazy_threshold={threshold}"));
 }
 
 fn level_of(l: u8) -> ConcurrencyLevel {
@@ -358,6 +421,11 @@ struct OneRun {
 }
 
 fn run_once(level: ConcurrencyLevel, via_tm: bool, threads: &[Vec<Op>], schedule: Schedule) -> OneRun {
+    run_once_with(level, via_tm, threads, Some(schedule), 1)
+}
+
+/// `schedule == None`: free-running OS threads, each program repeated `loops` times
+fn run_once_with(level: ConcurrencyLevel, via_tm: bool, threads: &[Vec<Op>], schedule: Option<Schedule>, loops: usize) -> OneRun {
     let tm = Arc::new(TokenManager::new(level));
     let vm = tm.version_manager().clone();
     let sh = Arc::new(Shared::default());
@@ -367,13 +435,19 @@ fn run_once(level: ConcurrencyLevel, via_tm: bool, threads: &[Vec<Op>], schedule
         .enumerate()
         .map(|(i, ops)| {
             let r = run.clone();
-            let ops = ops.clone();
+            let ops: Vec<Op> = (0..loops).flat_map(|_| ops.iter().copied()).collect();
             Box::new(move || thread_body(r, i, ops, via_tm)) as Box<dyn FnOnce() + Send>
         })
         .collect();
     let mon_run = run.clone();
     let monitor: Arc<dyn Fn(usize, u32) + Send + Sync> = Arc::new(move |_t, _site| check_min_version(&mon_run, "at yield point"));
-    let res = sched::run(progs, schedule, Some(monitor), 4000);
+    let res = match schedule {
+        Some(schedule) => sched::run(progs, schedule, Some(monitor), 4000),
+        None => {
+            sched::run_free(progs);
+            sched::RunResult::default()
+        }
+    };
     // quiescence: everything was released by the epilogues
     if !res.aborted {
         let (ar, aw) = (vm.active_readers(), vm.active_writers());
@@ -423,6 +497,24 @@ fn run_sched(ctx: &mut Ctx, level: u8, via_tm: bool, threads: Vec<Vec<Op>>, sche
             }
             for (a, c, d) in one.viol {
                 ctx.fail(&a, "mismatch", &c, d);
+            }
+        }
+        Sch::Free { reps, loops } => {
+            ctx.label("free_running_os_threads");
+            ctx.out.key = Some(fnv(format!("free|{:?}|{}|{}", threads, level, via_tm).as_bytes()));
+            if threads.iter().filter(|t| t.iter().any(|o| matches!(o, Op::AcqW | Op::WithWriter))).count() >= 2 {
+                ctx.nontrivial();
+            }
+            for _ in 0..reps {
+                let one = run_once_with(lvl, via_tm, &threads, None, loops as usize);
+                ctx.out.extra_evals += 1;
+                ctx.out.checks += loops as u64 * threads.iter().map(|t| t.len() as u64).sum::<u64>();
+                if !one.viol.is_empty() {
+                    for (a, c, d) in one.viol {
+                        ctx.fail(&a, "mismatch", &c, format!("unscheduled OS threads: {d}"));
+                    }
+                    break;
+                }
             }
         }
         Sch::Exhaustive(k) => {
@@ -619,7 +711,7 @@ impl Prop for P {
         "C16"
     }
     fn rule(&self) -> &'static str {
-        "Part A: 2-3 threads x 1-5 token ops (acquire reader/writer, drop, return-to-cache, clear cache, with_*_token, retire) against one manager, interleaved by a generated schedule consumed at the cfg(zipora_verif) yield points (random byte schedules + bounded-exhaustive <=2 forced switches for fixed programs); invariants checked at every yield point with all threads parked. Non-trivial = at least one context switch taken at a yield point inside a zipora token operation (not at an op boundary); distinct by hash of (programs, effective switch sequence). Part B: sequential multi-manager histories on a fresh thread; non-trivial = a manager dropped while one of its tokens is live or cached (physically only in the ASan flavour)."
+        "Part A: 2-3 threads x 1-5 token ops (acquire reader/writer, drop, return-to-cache, clear cache, with_*_token, retire) against one manager, interleaved by a generated schedule consumed at the cfg(zipora_verif) yield points (random byte schedules + bounded-exhaustive <=2 forced switches for fixed programs); invariants checked at every yield point with all threads parked. Non-trivial = at least one context switch taken at a yield point inside a zipora token operation (not at an op boundary); distinct by hash of (programs, effective switch sequence). Part A': the same programs looped 60x on 2-8 real unscheduled OS threads, 6 fresh managers per case (race windows without a yield point; same oracle, thread-side checks only). Part C: sequential LazyFreeList histories (push with ages in any order, runs longer than the bulk threshold, process_safe_items at generated thresholds) against a FIFO model. Part B: sequential multi-manager histories on a fresh thread; non-trivial = a manager dropped while one of its tokens is live or cached (physically only in the ASan flavour)."
     }
     fn assumptions(&self) -> Vec<String> {
         vec![
@@ -639,6 +731,37 @@ impl Prop for P {
             v.push(Plan::new(&format!("vm_{name}"), q(12_000, 300_000), q(500, 8000), sched_case(lvl, false)));
             v.push(Plan::new(&format!("tm_{name}"), q(12_000, 300_000), q(500, 8000), sched_case(lvl, true)));
         }
+        // the same programs looped on 2-8 real, unscheduled OS threads: race windows that contain
+        // no yield point (e.g. between a lock release and a counter update)
+        for (lvl, name) in [(3u8, "OneWriteMultiRead"), (4u8, "MultiWriteMultiRead")] {
+            for via_tm in [false, true] {
+                v.push(Plan::new(
+                    &format!("{}_{name}_free", if via_tm { "tm" } else { "vm" }),
+                    q(40, 1500),
+                    q(4, 100),
+                    proptest::collection::vec(proptest::collection::vec(op(via_tm), 2..=5), 2..=8)
+                        .prop_map(move |threads| Case::Sched { level: lvl, via_tm, threads, schedule: Sch::Free { reps: 6, loops: 60 } }),
+                ));
+            }
+        }
+        // LazyFreeList on its own: queues longer than the bulk threshold, ages in any order
+        v.push(Plan::new(
+            "lazy_free_list",
+            q(600, 20_000),
+            q(60, 1000),
+            (
+                proptest::sample::select(vec![0usize, 1, 2, 3, 8, 32, 33]),
+                proptest::collection::vec(
+                    prop_oneof![
+                        6 => (0u64..12).prop_map(LOp::Push),
+                        1 => (0u64..12, 1u8..80).prop_map(|(a, n)| LOp::PushRun(a, n)),
+                        3 => (0u64..14).prop_map(LOp::Process),
+                    ],
+                    1..60,
+                ),
+            )
+                .prop_map(|(threshold, ops)| Case::Lazy { threshold, ops }),
+        ));
         v.push(Plan::new(
             "tm_hist",
             q(3000, 60_000),
@@ -673,6 +796,7 @@ impl Prop for P {
         let c: Case = decode(case);
         match c {
             Case::Sched { level, via_tm, threads, schedule } => run_sched(ctx, level, via_tm, threads, schedule),
+            Case::Lazy { threshold, ops } => run_lazy(ctx, threshold, &ops),
             Case::Hist { ops, allow_drop_mgr } => run_hist(ctx, ops, allow_drop_mgr),
         }
     }
